@@ -158,8 +158,18 @@ func (R *Repository) activateStagedCRL(entry *Entry, store crlstore.CRLStore) er
 	return nil
 }
 
-// stageCRL downloads, parses and verifies the crl of an entry into a temporary store. It does not change the entry
+// stageCRL downloads, parses and verifies the crl of an entry into a temporary store. It does not change the entry.
+// It reads the crl locations from the store of the entry, so the caller has to hold the lock of the entry
 func (R *Repository) stageCRL(entry *Entry, chains *core.CertificateChains) (store crlstore.CRLStore, err error) {
+	crlLocations, locationsErr := entry.CRLStore.GetCRLLocations()
+	if locationsErr != nil {
+		crlLocations = nil
+	}
+	return R.stageCRLWithLocations(entry, chains, crlLocations)
+}
+
+// stageCRLWithLocations is stageCRL for callers which do not hold the lock of the entry, it does not touch the store of the entry
+func (R *Repository) stageCRLWithLocations(entry *Entry, chains *core.CertificateChains, crlLocations *core.CRLLocations) (store crlstore.CRLStore, err error) {
 	R.logger.Debug("loading crl", zap.String("crl", entry.CRLLoader.GetDescription()))
 	tempFileName, err := R.createTempFile()
 	if err != nil {
@@ -190,8 +200,7 @@ func (R *Repository) stageCRL(entry *Entry, chains *core.CertificateChains) (sto
 		}
 	}()
 	var processor = crlstore.CRLPersisterProcessor{CRLStore: stagingStore}
-	crlLocations, locationsErr := entry.CRLStore.GetCRLLocations()
-	if locationsErr == nil {
+	if crlLocations != nil {
 		err = processor.UpdateCRLLocations(crlLocations)
 		if err != nil {
 			return nil, err
@@ -370,13 +379,31 @@ func (R *Repository) loadIfStillNotLoaded(entry *Entry) error {
 func (R *Repository) loadInBackground(entry *Entry) error {
 	entry.entryLock.RLock()
 	chains := entry.Chains
+	crlLocations, locationsErr := entry.CRLStore.GetCRLLocations()
 	entry.entryLock.RUnlock()
-	store, err := R.stageCRL(entry, chains)
+	if locationsErr != nil {
+		crlLocations = nil
+	}
+	store, err := R.stageCRLWithLocations(entry, chains, crlLocations)
 	if err != nil {
 		return err
 	}
 	entry.entryLock.Lock()
 	defer entry.entryLock.Unlock()
+	//a handshake may have stored the crl locations of the entry while the crl was staged without the entry lock,
+	//they must not get lost with the replaced store, otherwise the crl could never be updated
+	currentLocations, locationsErr := entry.CRLStore.GetCRLLocations()
+	if locationsErr == nil {
+		err = store.UpdateCRLLocations(currentLocations)
+		if err != nil {
+			store.Close()
+			err2 := store.Delete()
+			if err2 != nil {
+				R.logger.Warn("failed to delete database", zap.Error(err2))
+			}
+			return err
+		}
+	}
 	return R.activateStagedCRL(entry, store)
 }
 
